@@ -296,7 +296,7 @@ var valid = map[string][]string{
 	"uu":    {"00000000-0000-0000-0000-000000000000", "urn:uuid:123e4567-e89b-12d3-a456-426614174000", "123E4567-E89B-12D3-A456-426614174000", "ffffffff-ffff-4fff-bfff-ffffffffffff"},
 }
 
-var hostile = []string{"\x00", "\xff", "\xc3", "\xc3\x28", "é", "ééé", "éééé", "日本", "\U0001F600", "\u00a0", "\u2028", "ſ", "K", "İ", "\n", "\r\n", "\t", " ", "-", ".", "+", "v", "0", "9", "M", "{", "}", "[", "]", "\"", "\\", ":", ",", "e", "E", "_", "/", "%s", "%d", "\x7f", "\x80", "\xed\xa0\x80", "\xf4\x90\x80\x80"}
+var hostile = []string{"\x00", "\xff", "\xc2", "\xc3", "\xe2\x80", "\xf0\x9f\x98", "\xc3\x28", "é", "ééé", "éééé", "日本", "\U0001F600", "\u00a0", "\u2028", "ſ", "K", "İ", "\n", "\r\n", "\t", " ", "-", ".", "+", "v", "0", "9", "M", "{", "}", "[", "]", "\"", "\\", ":", ",", "e", "E", "_", "/", "%s", "%d", "\x7f", "\x80", "\xed\xa0\x80", "\xf4\x90\x80\x80"}
 
 // hostileInput builds an input from a PRNG: valid text, edits, multi-byte runes at arbitrary offsets, runs, padding to a target length.
 func hostileInput(g *vkit.Rng, pkg string, limit int) []byte {
@@ -480,6 +480,56 @@ func TestCheck(t *testing.T) {
 						}
 					}
 					restore()
+				}
+			}
+		})
+	})
+
+	// Phase B2: the limit is a setting, not a property of the text: the same text is parsed again after MaxInputLength was
+	// lowered, raised and disabled (a parser that remembers earlier results must still apply the current limit first).
+	r.Phase("B2: histories - the same valid text re-parsed while MaxInputLength is changed between the calls", func() {
+		r.Parallel(int64(len(pkgs)), 1, func(w *vkit.W, plo, phi int64) {
+			for _, pkg := range pkgs[plo:phi] {
+				texts := append([]string{}, valid[pkg]...)
+				for _, v := range valid[pkg] {
+					texts = append(texts, " "+v, v+" ", "0"+v, v+v)
+				}
+				for round := 0; round < 3; round++ {
+					for _, v := range texts {
+						n := len(v)
+						for _, lim := range []int{0, n, n - 1, n + 1, 1, defaults[pkg], n - 1, 0, n / 2, n} {
+							if lim < 0 {
+								continue
+							}
+							restore := setLimit(pkg, lim)
+							for _, rule := range []int{0, 6, 1} {
+								c := Case{Pkg: pkg, A: vkit.B(v), B: vkit.B(v), Rule: rule, Limit: lim}
+								judge(c, w)
+								w.EvalRandom(vkit.Hash64(pkg, v, strconv.Itoa(lim), strconv.Itoa(rule), strconv.Itoa(round)), true)
+							}
+							restore()
+						}
+					}
+				}
+			}
+		})
+	})
+
+	// Phase B3: every single byte value inserted at every position of (and appended to) every valid text, default limits.
+	r.Phase("B3: every byte value 0..255 inserted at every position of every valid text x 3 rule words", func() {
+		r.Parallel(int64(len(pkgs)), 1, func(w *vkit.W, plo, phi int64) {
+			for _, pkg := range pkgs[plo:phi] {
+				for _, v := range valid[pkg] {
+					for pos := 0; pos <= len(v); pos++ {
+						for bv := 0; bv < 256; bv++ {
+							a := v[:pos] + string([]byte{byte(bv)}) + v[pos:]
+							for _, rule := range []int{0, 6, -1} {
+								c := Case{Pkg: pkg, A: vkit.B(a), B: vkit.B(v), Rule: rule, Limit: -1}
+								judge(c, w)
+								w.EvalRandom(vkit.Hash64(pkg, a, strconv.Itoa(rule)), nontrivial(c, defaults[pkg]))
+							}
+						}
+					}
 				}
 			}
 		})
